@@ -57,6 +57,16 @@ type c17Scen struct {
 	Pubs1   []c17Pub    `json:"pubs1"`
 	Changes []c17Change `json:"changes"`
 	Pubs2   []c17Pub    `json:"pubs2"`
+	// Bulk (optional, at the end): client (Node, Client) subscribes to N fresh filters with ONE SUBSCRIBE packet - a
+	// backlog of N events for every peer in one go; then node From publishes to every one of them
+	Bulk *c17Bulk `json:"bulk,omitempty"`
+}
+
+type c17Bulk struct {
+	Node   int `json:"n"`
+	Client int `json:"c"`
+	N      int `json:"count"`
+	From   int `json:"from"`
 }
 
 var c17Filters = []string{"f/a", "f/a", "f/b", "f/+", "f/#", "#", "$f/#"}
@@ -125,6 +135,11 @@ func genC17(t *rapid.T) c17Scen {
 			p := rapid.SampledFrom(s.Pubs1).Draw(t, "rep")
 			s.Pubs2[i].Node, s.Pubs2[i].Topic = p.Node, p.Topic
 		}
+	}
+	if rapid.IntRange(0, 5).Draw(t, "bulk") == 0 {
+		bn := rapid.IntRange(0, s.Nodes-1).Draw(t, "bulk_node")
+		s.Bulk = &c17Bulk{Node: bn, Client: rapid.IntRange(0, c17ClientsPerNode-1).Draw(t, "bulk_client"),
+			N: rapid.SampledFrom([]int{101, 130, 220}).Draw(t, "bulk_n"), From: (bn + 1 + rapid.IntRange(0, s.Nodes-2).Draw(t, "bulk_from")) % s.Nodes}
 	}
 	return s
 }
@@ -393,6 +408,80 @@ func runC17(s c17Scen, c *ev.Case) (out *ev.Violation) {
 			return v
 		}
 	}
+	if s.Bulk != nil {
+		return r.bulk(*s.Bulk)
+	}
+	return nil
+}
+
+// bulk: one SUBSCRIBE with many fresh filters on one node, then a publish to each of them from another node.
+func (r *c17Run) bulk(bk c17Bulk) *ev.Violation {
+	cl := r.clients[bk.Node][bk.Client]
+	if !cl.alive {
+		r.c.Count("skipped_ops", 1)
+		return nil
+	}
+	r.c.Label("bulk_subscribe")
+	var reqs []mw.SubReq
+	for i := 0; i < bk.N; i++ {
+		reqs = append(reqs, mw.SubReq{Filter: fmt.Sprintf("bulk/%d", i), QoS: 1})
+	}
+	r.nextSubID++
+	r.pid++
+	ack, err := cl.cl.Subscribe(r.pid, &mw.Props{SubscriptionIDs: []uint32{r.nextSubID}}, reqs...)
+	if err != nil || len(ack.ReasonCodes) != len(reqs) {
+		return harnessErr("bulk SUBSCRIBE: %v %v", ack, err)
+	}
+	// every event the subscription produced has been acknowledged by every peer
+	for _, n := range r.cl.Nodes {
+		if err := n.WaitDrained(15 * time.Second); err != nil {
+			return harnessErr("after the bulk SUBSCRIBE: %v", err)
+		}
+	}
+	pc := r.pubs[bk.From]
+	for i := 0; i < bk.N; i++ {
+		r.pid++
+		if _, err := pc.Publish(&mw.Packet{Topic: fmt.Sprintf("bulk/%d", i), QoS: 1, PacketID: r.pid, Payload: []byte(fmt.Sprintf("bulk-%d", i))}); err != nil {
+			return ev.Violf("C17.ack", "publish to bulk/%d not acknowledged: %v", i, err)
+		}
+	}
+	if err := r.cl.Nodes[bk.From].WaitDrained(15 * time.Second); err != nil {
+		return harnessErr("after the bulk publishes: %v", err)
+	}
+	for i, n := range r.cl.Nodes {
+		if err := sentinelBarrier(n.Broker, r.nodeClients(i), "bulk"); err != nil {
+			return harnessErr("barrier on node %d: %v", i, err)
+		}
+	}
+	// copies are attributed by the subscription identifier of the bulk SUBSCRIBE (the client may hold other
+	// subscriptions, such as '#', that match as well)
+	bulkID := r.nextSubID
+	got := map[string]int{}
+	for _, rc := range cl.cl.Take(func(pk *mw.Packet) bool { return pk.Type == mw.PUBLISH && !isSentinel(pk) }) {
+		if rc.P.Props == nil {
+			continue
+		}
+		for _, id := range rc.P.Props.SubscriptionIDs {
+			if id == bulkID {
+				got[string(rc.P.Payload)]++
+			}
+		}
+	}
+	var missing, twice []string
+	for i := 0; i < bk.N; i++ {
+		switch got[fmt.Sprintf("bulk-%d", i)] {
+		case 0:
+			missing = append(missing, fmt.Sprintf("bulk/%d", i))
+		case 1:
+		default:
+			twice = append(twice, fmt.Sprintf("bulk/%d", i))
+		}
+	}
+	if len(missing) > 0 || len(twice) > 0 {
+		return ev.Violf("C17.bulk-delivery", "client n%dc%d subscribed to %d filters with one SUBSCRIBE (all events acknowledged by the peers); of the %d messages node %d then published, %d never arrived %v and %d arrived more than once %v",
+			bk.Node, bk.Client, bk.N, bk.N, bk.From, len(missing), clipStrs(missing, 6), len(twice), clipStrs(twice, 6)).With("missing", len(missing), "twice", len(twice))
+	}
+	r.nontrivial = true
 	return nil
 }
 
